@@ -42,6 +42,13 @@ use crate::Ctx;
 const TOKENS: [&str; 5] = ["ab", "abc", "abd", "b", "ba"];
 const PREFIXES: [&str; 8] = ["a", "ab", "abc", "abd", "b", "ba", "c", "Ab"];
 const MAX_SIZE: usize = 3;
+/// covering size of family A (>= its 5 terms; not above the explicit scan cap 6 of its cap slice)
+const A_COVERING_SIZE: usize = 6;
+/// Family T (tie family): six terms sharing the prefix "ru"; every assignment of doc_freq 1 / 2.
+const TIE_TOKENS: [&str; 6] = ["ruby", "rumba", "rune", "rural", "rust", "rut"];
+/// typed texts of family T: the shared prefix, a shorter and a longer one, and three texts that are
+/// 1..2 edits away from several terms at once
+const TIE_PREFIXES: [&str; 6] = ["ru", "r", "rus", "rube", "rune", "rul"];
 /// covering size of family M (>= its whole dictionary of 28 terms, < every scan cap)
 const MB_COVERING_SIZE: usize = 30;
 
@@ -282,18 +289,24 @@ fn shared(family: &'static str) -> Shared {
   let an = sch.build_analyzers().expect("analyzers");
   let ia = an.index_analyzer("body").expect("index analyzer");
   let sa = an.search_analyzer("body").expect("search analyzer");
-  let (shape_texts, specs, max_size) = if family == "M" {
+  let (shape_texts, specs, max_size) = if family == "T" {
+    let sizes: Vec<usize> = (1..=TIE_TOKENS.len()).collect();
+    let prefixes: Vec<String> = TIE_PREFIXES.iter().map(|s| s.to_string()).collect();
+    (TIE_TOKENS.iter().map(|s| s.to_string()).collect(), specs(&prefixes, &sizes, false), TIE_TOKENS.len())
+  } else if family == "M" {
     let sizes = [1, 2, MB_COVERING_SIZE];
     (mb_shapes(), specs(&mb_prefixes(), &sizes, false), MB_COVERING_SIZE)
   } else {
     let prefixes: Vec<String> = PREFIXES.iter().map(|s| s.to_string()).collect();
-    let sizes: Vec<usize> = (1..=MAX_SIZE).collect();
-    (shapes(), specs(&prefixes, &sizes, true), MAX_SIZE)
+    // 1..=3 and a covering size (>= the 5 indexed terms)
+    let mut sizes: Vec<usize> = (1..=MAX_SIZE).collect();
+    sizes.push(A_COVERING_SIZE);
+    (shapes(), specs(&prefixes, &sizes, true), A_COVERING_SIZE)
   };
   let shape_terms: Vec<BTreeSet<String>> = shape_texts.iter().map(|t| ia.analyze(t).into_iter().map(|t| t.text).collect()).collect();
   let nterms = shape_terms.iter().flatten().collect::<BTreeSet<_>>().len();
-  if nterms > max_size && family == "M" {
-    vcore::ev::machinery_failure("C22: family M covering size is smaller than its dictionary");
+  if nterms > max_size {
+    vcore::ev::machinery_failure("C22: a family's covering size is smaller than its dictionary");
   }
   // a typed text that analyzes to several tokens is outside the alphabet (docs are silent)
   for s in &specs {
@@ -422,6 +435,14 @@ fn same_options(a: &[Opt], b: &[Opt], cover: &[Opt]) -> bool {
   true
 }
 
+/// Exact equality of two option lists of the same index (same texts in the same order, same
+/// doc_freq; scores equal up to rel. 1e-5). Used where no float re-association can occur (second
+/// run, truncation): there "score descending then text" is a total order and ties at the cut-off
+/// must be broken by text.
+fn same_exact(a: &[Opt], b: &[Opt]) -> bool {
+  a.len() == b.len() && a.iter().zip(b).all(|(x, y)| x.text == y.text && x.df == y.df && approx(x.score, y.score, 1e-5))
+}
+
 struct SpecFail {
   spec: usize,
   sig: Option<&'static str>,
@@ -462,6 +483,8 @@ struct Stats {
   /// cases whose required set holds a term whose byte length differs from the typed text's by
   /// more than max_edits (character distance <= max_edits): byte/char confusions show here
   byte_vs_char: u64,
+  /// cases whose size cuts the covering answer between two options of exactly equal score
+  tie_at_cut: u64,
   listings: BTreeSet<String>,
 }
 
@@ -567,15 +590,18 @@ fn judge(sh: &Shared, corpus: &Corpus, order: &[usize], layout: &[usize], resp: 
     }
     if bad.is_none() {
       let o2 = resp2.get(&spec.name).unwrap_or(&empty);
-      if !same_options(o, o2, resp.get(&sh.specs[spec.covering].name).unwrap_or(&empty)) {
+      if !same_exact(o, o2) {
         bad = Some(format!("a second run of the same request on the same reader returned {}", opts_str(o2)));
       }
     }
     if bad.is_none() && spec.size < sh.max_size {
       let cover = resp.get(&sh.specs[spec.covering].name).unwrap_or(&empty);
       let head = &cover[..cover.len().min(spec.size)];
-      if !same_options(head, o, cover) {
-        bad = Some(format!("it is not the head of the size {} answer {} of the same index", sh.max_size, opts_str(cover)));
+      if spec.size < cover.len() && cover[spec.size - 1].score == cover[spec.size].score {
+        stats.tie_at_cut += 1;
+      }
+      if !same_exact(head, o) {
+        bad = Some(format!("it is not the first {} of the size {} answer {} of the same index (ties at the cut-off are broken by text ascending)", spec.size, sh.max_size, opts_str(cover)));
       }
     }
     let mut sig = None;
@@ -655,6 +681,7 @@ struct Acc {
   incomplete: AtomicU64,
   score_disagree: AtomicU64,
   byte_vs_char: AtomicU64,
+  tie_at_cut: AtomicU64,
   multi_segment_worlds: AtomicU64,
   listings: Mutex<BTreeSet<String>>,
   failures: Mutex<Vec<Failure>>,
@@ -717,6 +744,7 @@ fn explore(rep: &Reporter, sh: &Shared, fam: usize, jobs: &[Job], acc: &Acc, dea
     acc.incomplete.fetch_add(st.incomplete, Ordering::Relaxed);
     acc.score_disagree.fetch_add(st.score_model_disagree, Ordering::Relaxed);
     acc.byte_vs_char.fetch_add(st.byte_vs_char, Ordering::Relaxed);
+    acc.tie_at_cut.fetch_add(st.tie_at_cut, Ordering::Relaxed);
     let mut l = acc.listings.lock();
     if l.len() < 4096 {
       l.extend(st.listings);
@@ -757,6 +785,25 @@ fn mb_jobs(sh: &Shared) -> Vec<Job> {
   jobs
 }
 
+/// Family T jobs: every assignment of doc_freq in {1, 2} to the six terms, as one segment and as
+/// one document per segment.
+fn tie_jobs() -> Vec<Job> {
+  let n = TIE_TOKENS.len();
+  let mut jobs = Vec::new();
+  for mask in 0..(1usize << n) {
+    let mut shapes = Vec::new();
+    for i in 0..n {
+      shapes.push(i);
+      if mask & (1 << i) != 0 {
+        shapes.push(i);
+      }
+    }
+    let lays = vec![(shapes.clone(), vec![shapes.len()]), (shapes.clone(), vec![1; shapes.len()])];
+    jobs.push(Job { shapes, lays: Some(lays), early: true, rank: mask });
+  }
+  jobs
+}
+
 /// (typed text, indexed term) pairs of family M by character distance, and how many of them have
 /// a byte-length difference larger than the character distance allows for max_edits 1 / 2.
 fn mb_pair_stats(sh: &Shared) -> Value {
@@ -787,12 +834,12 @@ pub fn run(ctx: &Ctx) -> i32 {
   let mut rep = Reporter::new("C22", ctx.tier, "exploration");
   let quick = ctx.tier.is_quick();
   // families in reporting / execution order: M (multi-byte slice), A (ASCII corpora x layouts), C
-  let fams: [Shared; 2] = [shared("M"), shared("A")];
+  let fams: [Shared; 3] = [shared("T"), shared("M"), shared("A")];
   if let Some(path) = &ctx.replay {
     rep.set_replaying(true);
     let v: Value = serde_json::from_slice(&std::fs::read(path).expect("replay file")).expect("json");
     let cs = &v["case"];
-    let sh = if cs["family"] == "M" { &fams[0] } else { &fams[1] };
+    let sh = if cs["family"] == "T" { &fams[0] } else if cs["family"] == "M" { &fams[1] } else { &fams[2] };
     let order: Vec<usize> = cs["shape_order"].as_array().expect("shape_order").iter().map(|x| x.as_u64().unwrap() as usize).collect();
     let layout: Vec<usize> = cs["layout"].as_array().expect("layout").iter().map(|x| x.as_u64().unwrap() as usize).collect();
     let spec = cs["spec"].as_u64().expect("spec") as usize;
@@ -830,17 +877,23 @@ pub fn run(ctx: &Ctx) -> i32 {
   let deadline = if quick { 35.0 } else { 800.0 };
   let acc = Acc::default();
 
-  // ---- family M first: a wall budget cannot skip it
-  let m_jobs = mb_jobs(&fams[0]);
-  explore(&rep, &fams[0], 0, &m_jobs, &acc, deadline);
-  let m_worlds = acc.worlds.load(Ordering::Relaxed);
-  let m_cases = acc.evals.load(Ordering::Relaxed);
+  // ---- families T and M first: a wall budget cannot skip them
+  let t_jobs = tie_jobs();
+  explore(&rep, &fams[0], 0, &t_jobs, &acc, deadline);
+  let t_worlds = acc.worlds.load(Ordering::Relaxed);
+  let t_cases = acc.evals.load(Ordering::Relaxed);
+  let t_tie_at_cut = acc.tie_at_cut.load(Ordering::Relaxed);
+  let t_wall = rep.elapsed_s();
+  let m_jobs = mb_jobs(&fams[1]);
+  explore(&rep, &fams[1], 1, &m_jobs, &acc, deadline);
+  let m_worlds = acc.worlds.load(Ordering::Relaxed) - t_worlds;
+  let m_cases = acc.evals.load(Ordering::Relaxed) - t_cases;
   let m_byte_vs_char = acc.byte_vs_char.load(Ordering::Relaxed);
   let m_nontrivial = acc.nontrivial.load(Ordering::Relaxed);
-  let m_wall = rep.elapsed_s();
+  let m_wall = rep.elapsed_s() - t_wall;
 
   // ---- family C (many segments), then family A simplest first
-  let sh = &fams[1];
+  let sh = &fams[2];
   let max_docs = if quick { 3 } else { 4 };
   let nshapes = sh.shape_texts.len();
   let many_shape = sh.shape_texts.iter().position(|t| t == "ab abc").expect("shape");
@@ -864,7 +917,7 @@ pub fn run(ctx: &Ctx) -> i32 {
       jobs.push(Job { shapes, lays: None, early, rank });
     }
   }
-  explore(&rep, sh, 1, &jobs, &acc, deadline);
+  explore(&rep, sh, 2, &jobs, &acc, deadline);
   rep.add_evals(acc.evals.load(Ordering::Relaxed));
 
   let mut fails = std::mem::take(&mut *acc.failures.lock());
@@ -896,19 +949,27 @@ pub fn run(ctx: &Ctx) -> i32 {
   if nl < 2 {
     vcore::ev::machinery_failure("C22: fewer than 2 distinct outcomes observed (vacuous)");
   }
+  if t_tie_at_cut == 0 {
+    vcore::ev::machinery_failure("C22: family T has no case with a score tie straddling the cut-off (vacuous)");
+  }
   if m_byte_vs_char == 0 {
     vcore::ev::machinery_failure("C22: family M has no case separating byte length from character count (vacuous)");
   }
   let cov = vcore::cov! {
     "distinct_nontrivial" => acc.nontrivial.load(Ordering::Relaxed),
-    "rule" => "Family M (first): 29 document shapes = 28 tokens carrying é / я / 日 / 𠮷 (2, 2, 3, 4 UTF-8 bytes) at the start, middle or end of the stem ab, their ASCII neighbours (ab, acb, aXc, aXbc, aX) and two double insertions, + one document with an emoji between two tokens; corpora = every single shape, every pair of shapes, the whole dictionary (token i in 1 + i % 3 documents), each as one segment and one document per segment (dictionary also in 3 chunks); cases = world x 32 typed texts (every token, Aéb, ab😀, a, яb) x size {1, 2, 30 (covering)} x 9 fuzzy settings (none; max_edits {1,2} x prefix_length {0,1} x min_length {1,3}), each run twice. Family A: corpora = every multiset of 1..=N documents over 20 shapes (one token, or an unordered pair incl. a repeated token, over {ab, abc, abd, b, ba}); worlds = corpus x every ordered partition of its documents into commits (document order inside one commit not varied), no deletions; cases = world x 8 prefixes {a, ab, abc, abd, b, ba, c (non-prefix), Ab (upper-case)} x size 1..3 x 11 fuzzy settings (none; max_edits {1,2} x prefix_length {0,1} x min_length {1,3}; max_edits {1,2} with max_expansions 6), each case run twice. Family C: k = 24..=34 copies of the document \"ab abc\" committed one per segment vs. as one segment, family A requests (2k (segment, term) pairs cross the default fuzzy cap 50 at k = 26 and the prefix scan cap 64 at k = 33 while only 2 terms match). A case is non-trivial when it returns at least one option and the admissible terms are a non-empty proper subset of the indexed terms.",
+    "rule" => "Family T (first): 6 terms sharing the prefix ru {ruby, rumba, rune, rural, rust, rut}, one token per document, every assignment of doc_freq 1 or 2 to the terms (64 corpora), each as one segment and one document per segment; cases = world x 6 typed texts {ru, r, rus, rube, rune, rul} x size 1..6 (6 = covering) x 9 fuzzy settings (none; max_edits {1,2} x prefix_length {0,1} x min_length {1,3}), each run twice; the size-s answer must be exactly the first s options of the covering answer, whose order (score descending, exactly equal scores by text ascending) is checked on the returned values. Family M: 29 document shapes = 28 tokens carrying é / я / 日 / 𠮷 (2, 2, 3, 4 UTF-8 bytes) at the start, middle or end of the stem ab, their ASCII neighbours (ab, acb, aXc, aXbc, aX) and two double insertions, + one document with an emoji between two tokens; corpora = every single shape, every pair of shapes, the whole dictionary (token i in 1 + i % 3 documents), each as one segment and one document per segment (dictionary also in 3 chunks); cases = world x 32 typed texts (every token, Aéb, ab😀, a, яb) x size {1, 2, 30 (covering)} x 9 fuzzy settings (none; max_edits {1,2} x prefix_length {0,1} x min_length {1,3}), each run twice. Family A: corpora = every multiset of 1..=N documents over 20 shapes (one token, or an unordered pair incl. a repeated token, over {ab, abc, abd, b, ba}); worlds = corpus x every ordered partition of its documents into commits (document order inside one commit not varied), no deletions; cases = world x 8 prefixes {a, ab, abc, abd, b, ba, c (non-prefix), Ab (upper-case)} x size {1, 2, 3, 6 (covering)} x 11 fuzzy settings (none; max_edits {1,2} x prefix_length {0,1} x min_length {1,3}; max_edits {1,2} with max_expansions 6), each case run twice. Family C: k = 24..=34 copies of the document \"ab abc\" committed one per segment vs. as one segment, family A requests (2k (segment, term) pairs cross the default fuzzy cap 50 at k = 26 and the prefix scan cap 64 at k = 33 while only 2 terms match). A case is non-trivial when it returns at least one option and the admissible terms are a non-empty proper subset of the indexed terms.",
+    "family_t" => json!({
+      "corpora": t_jobs.len(), "worlds": t_worlds, "requests_per_world": fams[0].specs.len(), "cases": t_cases,
+      "cases_with_a_score_tie_straddling_the_cut_off": t_tie_at_cut, "wall_s": t_wall,
+    }),
+    "cases_with_a_score_tie_straddling_the_cut_off" => acc.tie_at_cut.load(Ordering::Relaxed),
     "family_m" => json!({
-      "corpora": m_jobs.len(), "worlds": m_worlds, "requests_per_world": fams[0].specs.len(), "cases": m_cases, "nontrivial_cases": m_nontrivial,
+      "corpora": m_jobs.len(), "worlds": m_worlds, "requests_per_world": fams[1].specs.len(), "cases": m_cases, "nontrivial_cases": m_nontrivial,
       "cases_requiring_a_term_whose_byte_length_differs_by_more_than_max_edits": m_byte_vs_char,
-      "typed_text_x_term_pairs": mb_pair_stats(&fams[0]), "wall_s": m_wall,
+      "typed_text_x_term_pairs": mb_pair_stats(&fams[1]), "wall_s": m_wall,
     }),
     "max_docs" => max_docs,
-    "corpora" => jobs.len() + m_jobs.len(),
+    "corpora" => jobs.len() + m_jobs.len() + t_jobs.len(),
     "family_c_corpora" => family_c,
     "worlds" => acc.worlds.load(Ordering::Relaxed),
     "multi_segment_worlds" => acc.multi_segment_worlds.load(Ordering::Relaxed),
